@@ -42,3 +42,26 @@ Proof.
   destruct s; [specialize (IH k) | specialize (IH (S k)) | specialize (IH (S k))];
     destruct (instantiate _ t) as [r k']; simpl in *; lia.
 Qed.
+
+(* ---- typed path fields ---- *)
+Lemma dec_aux_nonempty fuel : forall n acc, fuel <> 0 -> dec_aux fuel n acc <> "".
+Proof.
+  induction fuel as [|f IH]; intros n acc H; [congruence|]. cbn [dec_aux].
+  destruct (Nat.ltb n 10); [discriminate|].
+  destruct f as [|f']; [cbn [dec_aux]; discriminate|]. apply IH. discriminate.
+Qed.
+
+Lemma dec_seg_ok n : seg_ok (dec n) = true.
+Proof.
+  unfold seg_ok, dec. rewrite (dec_aux_no_slash (S n) n "") by reflexivity.
+  destruct (dec_aux (S n) n "") eqn:E; [|reflexivity].
+  exfalso. revert E. apply dec_aux_nonempty. discriminate.
+Qed.
+
+(* a non-string path field bound to the default single-segment template is rendered as one valid segment *)
+Lemma typed_nonstring_matches v : (exists n, v = VI n) \/ (exists b, v = VB b) -> matches [SStar] (render v) = true.
+Proof.
+  intros [[n ->]|[b ->]]; cbn [render matches].
+  - rewrite dec_seg_ok. reflexivity.
+  - destruct b; reflexivity.
+Qed.
